@@ -119,7 +119,7 @@ static int Record(const vh::Args& args) {
       auto is = a.Intersect(b); ev["isect"] = is.has_value() ? json{ {"none", false}, {"s", is->start}, {"f", is->finish} } : json{ {"none", true}, {"s", 0}, {"f", 0} };
       ev["merge"] = RJ(StrRange::Merge({ a, b, c3 }));
     }
-    out << ev.dump() << "\n"; ++rep.cases;
+    out << ev.dump() << std::endl; ++rep.cases;
   }
   rep.counters["events"] = n;
   rep.Write(args.get("out"));
@@ -127,7 +127,7 @@ static int Record(const vh::Args& args) {
 }
 
 int main(int argc, char** argv) {
-  { vh::Args args(argc, argv); if (args.has("record")) return Record(args); }
+  { vh::Args args(argc, argv); if (args.has("record")) return vh::RunRecorder(args.get("trace"), args.get("out"), [&]() { return Record(args); }); }
   return vh::Main(argc, argv, [](const json& c, vh::Report& r) {
     if (c["kind"] == "str") StrCase(c, r); else RngCase(c, r);
     if (r.samples.size() < 3 && (r.cases % 9973) == 1) r.Sample(c);
